@@ -22,12 +22,12 @@ Print Assumptions C16_shape.
 Theorem C16_ctx_same : forall v, tpre v -> parse (pv true v) = Some (jv_of v) /\ parse (pv false v) = Some (jv_of v).
 Proof. exact context_same. Qed.
 Print Assumptions C16_ctx_same.
-Theorem C16_ctx_members : forall c, q_layout_escaped c = true -> forall ctxs fs, owf_ctxs ctxs -> owf_flds fs ->
+Theorem C16_ctx_members : forall c, q_layout_escaped c = true -> forall ctxs fs,
+  forallb wf_flds ctxs = true -> wf_flds fs = true ->
   tpre (TObj (close (ev_flds c fs (ev_with_chain c ctxs)))).
 Proof. exact ctx_members. Qed.
 Print Assumptions C16_ctx_members.
 
-Theorem C16_wire : forall i, wf i = true -> owf_ctxs (ec_ctxs (dec_case i)) -> owf_flds (ec_fs (dec_case i)) ->
-  spec i (model i) = true.
+Theorem C16_wire : forall i, wf i = true -> spec i (model i) = true.
 Proof. exact wire_thm. Qed.
 Print Assumptions C16_wire.
